@@ -69,7 +69,11 @@ func (c *Ctx) ChildCases(binary string) ([]Case, error) {
 	if _, err := os.Stat(binary); err != nil {
 		return nil, err
 	}
-	cmd := exec.Command(binary, "-prop", c.Prop, "-tier", c.Tier, "-emit")
+	build := "constantTime"
+	if strings.HasSuffix(binary, "_generic") {
+		build = "generic"
+	}
+	cmd := exec.Command(binary, "-prop", c.Prop, "-tier", c.Tier, "-emit", "-build", build)
 	cmd.Env = append(os.Environ(), fmt.Sprintf("VERIF_SEED=%d", c.Seed))
 	var errb strings.Builder
 	cmd.Stderr = &errb
